@@ -24,6 +24,10 @@ EXPLANATION = (
     "integer input is promoted before any division and float scores are never truncated into integer tables. NOT decided: pandas' "
     "own handling of PeriodIndex/DatetimeIndex inside the calls the library makes; integer overflow of X**2 for huge values."
 )
+# obligations added during the build phase (seeding rounds, twins, mutation analysis)
+ADDED_IN_BUILD = ' Also: VALUES-ONLY - the C10.c obligations of all six detectors (no cache of an earlier call keyed on the index); check_series keeps index names at every call site (sibling agreement); drivers-positional - every value a detection driver returns is an array / list, never a labelled pandas object that `pd.Series(values, index=X.index)` would re-align; AS-2D - the three cases of as_2d_array decided on facts about the rank of the operand as given (a squeezed / reshaped operand has a rank of its own).'
+EXPLANATION = EXPLANATION + ADDED_IN_BUILD
+
 ASSUMPTIONS = [
     "Python's ast module and evaluation-order/argument-binding semantics as implemented in skverif/symex.py",
     "library model table skverif/models.py: which attributes/methods exist on ndarray, Series and DataFrame alike (len, shape, ndim) and which functions accept all three (np.asarray, pd.DataFrame)",
